@@ -44,8 +44,10 @@ def execute(case):
                         continue                                 # (core, factors) is not a TuckerTensor under these options
                     runs["%s_%s" % (be, how)] = lf.run_tucker_options(inp, how, c["skip"], c["tr"], c["modes"])
                 continue
+            # container form of the parts: lists or tuples all the way down, alternating with the backend and the event
+            form = ("list", "tuple")[(case["k"] + (be == "einsum")) % 2]
             for how in ("tuple", "object"):
-                runs["%s_%s" % (be, how)] = lf.run_views(op, inp, how)
+                runs["%s_%s" % (be, how)] = lf.run_views(op, inp, how, form=form)
                 if c["bad"] == "none" and be == "core":     # the same conversions in sequence on ONE tuple / ONE object
                     runs["%s_%s_seq" % (be, how)] = lf.run_views(op, inp, how, shared=True)
             if c["bad"] != "none":          # invalid family: the conversion functions on the raw tuple, too
@@ -97,7 +99,8 @@ def run(chk, opts):
     chk.notes["conversion_functions_that_returned_a_value_on_an_invalid_raw_tuple (run x event counts)"] = silent
     for rid, clause, rest in chk.validate("FactorizedTrace", events):
         ev = by_id.get(rid)
-        chk.violation(rid, clause, event=ev, extra={"run": rest[0] if rest else "-"})
+        chk.violation(rid, clause, event=ev, extra={"run": rest[0] if rest else "-",
+                                                                  "form": ((ev or {}).get("runs", {}).get(rest[0] if rest else "-", {}) or {}).get("form", "-")})
     chk.notes["phase_s"] = {"design+export": round(t1 - t0, 1), "execute": round(t2 - t1, 1), "validate": round(time.time() - t2, 1)}
     chk.exhaustive = len(chk.distinct) == len(cfgs) and not chk.machinery
     chk.assumptions += ["NumPy backend only", "integer entries in -2..2 so that float64 arithmetic is exact; multilinearity in each factor "
